@@ -17,7 +17,7 @@ Theorem enum_source_shape o idc uri data es i :
   \/ (exists d ps, es = accepted_envelopes o uri data d ps).
 Proof.
   unfold enum_source. destruct (new_matcher dialects EN) as [m0|]; [|discriminate].
-  destruct (parse_source false m0 (new_builder idc) data) as [d m b c|errs m b c|e m b c| |]; try discriminate.
+  destruct (parse_source (stop_first o) m0 (new_builder idc) data) as [d m b c|errs m b c|e m b c| |]; try discriminate.
   - destruct (print_pickles o) eqn:PP.
     + destruct (compile uri d (b_idc b)) as [[ps i']|]; [|discriminate].
       intros E. inversion E; subst. right. exists d, ps. unfold accepted_envelopes. rewrite PP, <- app_assoc. reflexivity.
@@ -62,8 +62,8 @@ Theorem enum_source_counter o idc uri data es i : enum_source o idc uri data = S
 Proof.
   unfold enum_source. destruct (new_matcher dialects EN) as [m0|] eqn:NM; [|discriminate].
   apply new_matcher_wf in NM as [W _].
-  pose proof (parse_source_counter false m0 (new_builder idc) data W) as C.
-  destruct (parse_source false m0 (new_builder idc) data) as [d m b c|errs m b c|e m b c| |]; try discriminate; simpl in C.
+  pose proof (parse_source_counter (stop_first o) m0 (new_builder idc) data W) as C.
+  destruct (parse_source (stop_first o) m0 (new_builder idc) data) as [d m b c|errs m b c|e m b c| |]; try discriminate; simpl in C.
   - destruct (print_pickles o).
     + destruct (compile uri d (b_idc b)) as [[ps i']|] eqn:K; [|discriminate]. apply compile_counter in K.
       intros E. inversion E; subst. lia.
